@@ -195,13 +195,20 @@ def Tree.addTree (t : Tree) (next : NodeId) (parent : NodeId) (srcTops : List T)
   | some p =>
     if srcTops.any (fun s => p.kids.any fun k => k.did == s.did) then (t, next, some .unique)
     else
-      let order := match before with
-        | .bTrue | .idx _ => srcTops.reverse
-        | _ => srcTops
-      order.foldl (fun (acc : Tree × NodeId × Option Err) s =>
+      -- an index is resolved once (as `list.insert` clamps it); the k-th copy goes to position idx + k
+      let n : Int := p.kids.length
+      let start : Option Int := match before with
+        | .bTrue => some 0
+        | .idx i => some (if i < 0 then (if n + i < 0 then 0 else n + i) else (if i > n then n else i))
+        | _ => none
+      (srcTops.zipIdx).foldl (fun (acc : Tree × NodeId × Option Err) (sk : T × Nat) =>
         match acc with
-        | (t, n, some e) => (t, n, some e)
-        | (t, n, none) => Tree.addNode t n parent s false none before (some deep) none (if keepKind then s.kind else none)) (t, next, none)
+        | (t, nx, some e) => (t, nx, some e)
+        | (t, nx, none) =>
+          let b := match start with
+            | some i0 => Before.idx (i0 + sk.2)
+            | none => before
+          Tree.addNode t nx parent sk.1 false none b (some deep) none (if keepKind then sk.1.kind else none)) (t, next, none)
 
 /-- `Node.copy_to(target, add_self=False, deep=)` / `Tree.copy_to(target, deep=)`: copies of the
 source's children are appended to the target; a node without children → ValueError; a collision
